@@ -112,3 +112,9 @@ Definition names_missing (m : model) : Prop :=
 Definition feeds (m : model) (x y : name) : Prop :=
   exists nm cmp, In (nm, cmp) (to_sort m) /\ In x (comp_args cmp) /\ In y (comp_outs nm cmp).
 Definition has_cycle (m : model) : Prop := exists x, clos_trans name (feeds m) x x.
+
+(** closing round (seeded C01-9): a name reads a data set when it IS one or is a derived quantity one
+    of whose arguments does, through any chain *)
+Inductive ReadsData (m : model) : name -> Prop :=
+| RD_dat k : In k (keys (m_dat m)) -> ReadsData m k
+| RD_der d der a : In (d, der) (m_der m) -> In a (d_args der) -> ReadsData m a -> ReadsData m d.
